@@ -1,3 +1,256 @@
+//! C10 - Binary frames decode to what was encoded under any fragmentation.
+//!
+//! Engine E4 (bounded exhaustive enumeration). For every codec pair of
+//! `swimos_agent_protocol::encoding` and `swimos_messages::protocol`:
+//!
+//! * **fragmentation**: every message variant (payloads from a small boundary pool), every sequence
+//!   up to the stated length, encoded by the real encoder into one buffer, decoded by a fresh real
+//!   decoder under every chunking with <= 2 cuts (3 in the thorough tier for short streams) and
+//!   byte-by-byte, through the `tokio_util` contract (append a chunk, `decode` until `None`, at the
+//!   end `decode_eof` until `None`). Oracles: decoded list == encoded list; after frame k exactly
+//!   the bytes of frames 0..=k are consumed; a frame is delivered as soon as its last byte is in
+//!   the buffer; no error, panic, unbounded stepping or huge allocation.
+//! * **truncation**: every proper prefix that ends inside a frame, whole and byte-by-byte, then
+//!   `decode_eof`: exactly the complete frames, never a message made from a truncated frame.
+//! * **corruption**: every tag byte replaced by all other 255 values, every byte of every length
+//!   field by {0, b-1, b+1, 0xFF}; whole and byte-by-byte. Verdict must be: an error; or the same
+//!   messages as without the corruption (the field was redundant); or messages that re-encode to
+//!   the received bytes (the corrupted stream is itself a valid stream). Anything else is a
+//!   silently wrong message. Never a panic, unbounded stepping, or an allocation request > 64 MiB.
+//! * **recovery**: one frame with an intact header and a body the (Recon) decoder must reject
+//!   among valid frames, all chunkings: exactly one error, then the remaining frames, aligned.
+
+mod alloc;
+mod engine;
+mod entries;
+mod layout;
+mod model;
+
+use engine::{replay_entry, run_entry, Acc, Entry, LegAcc, Params, INFLIGHT, TICKS};
+use entries::{for_each_entry, Visitor};
+use serde_json::{json, Value as J};
+use std::fmt::Debug;
+use std::sync::atomic::Ordering;
+use tokio_util::codec::Decoder;
+use vcommon::{Ctx, Leg, Tier};
+
+#[global_allocator]
+static GLOBAL: alloc::Guarded = alloc::Guarded;
+
+struct Runner<'a> {
+    p: &'a Params,
+    acc: Acc,
+    only: Option<String>,
+    count: usize,
+}
+
+impl<'a> Visitor for Runner<'a> {
+    fn visit<M, D>(&mut self, e: Entry<M, D>)
+    where
+        M: Clone + Debug + PartialEq + Send + Sync + 'static,
+        D: Decoder,
+        D::Error: Debug,
+    {
+        if let Some(o) = &self.only {
+            if !e.name.contains(o.as_str()) {
+                return;
+            }
+        }
+        self.count += 1;
+        run_entry(&e, self.p, &mut self.acc);
+    }
+}
+
+struct Replayer<'a> {
+    detail: &'a J,
+    result: Option<Option<String>>,
+}
+
+impl<'a> Visitor for Replayer<'a> {
+    fn visit<M, D>(&mut self, e: Entry<M, D>)
+    where
+        M: Clone + Debug + PartialEq + Send + Sync + 'static,
+        D: Decoder,
+        D::Error: Debug,
+    {
+        if self.detail["codec"].as_str() == Some(e.name) {
+            self.result = Some(replay_entry(&e, self.detail));
+        }
+    }
+}
+
+fn watchdog(root: std::path::PathBuf) {
+    std::thread::spawn(move || {
+        let mut last = TICKS.load(Ordering::Relaxed);
+        let mut idle = 0u32;
+        loop {
+            std::thread::sleep(std::time::Duration::from_secs(1));
+            let now = TICKS.load(Ordering::Relaxed);
+            let busy = !INFLIGHT.lock().map(|g| g.is_empty()).unwrap_or(true);
+            if now != last || !busy {
+                last = now;
+                idle = 0;
+                continue;
+            }
+            idle += 1;
+            if idle >= 90 {
+                let inflight: Vec<String> = INFLIGHT.lock().map(|g| g.values().cloned().collect()).unwrap_or_default();
+                let first = inflight.first().cloned().unwrap_or_default();
+                let sig = format!("law=terminates (no case finished for 90 s) {}", first);
+                let v = json!({"property": "C10", "leg": "watchdog", "signature": sig,
+                    "detail": {"what": "a call into a decoder did not return", "in_flight": inflight}});
+                let dir = root.join("replays");
+                let _ = std::fs::create_dir_all(&dir);
+                let p = dir.join(format!("C10-{:016x}.json", vcommon::fnv(sig.as_bytes())));
+                let _ = std::fs::write(&p, serde_json::to_string_pretty(&v).unwrap_or_default());
+                eprintln!("violation signature: {}", sig);
+                println!("VIOLATION property=C10 replay={}", p.display());
+                std::process::exit(1);
+            }
+        }
+    });
+}
+
+fn leg(ctx: &Ctx, name: &str, a: &LegAcc, rule: &str, bounds: J) {
+    let mut b = bounds;
+    b["per_codec"] = J::Array(a.per_codec.clone());
+    b["skipped_supersequences_of_failing_streams"] = json!(a.stats.skipped_nonminimal);
+    b["streams_not_run_because_of_wall_cap"] = json!(a.stats.capped);
+    ctx.add_leg(Leg {
+        name: name.into(),
+        engine: "E4-enum".into(),
+        states: a.stats.streams,
+        transitions: a.stats.calls,
+        evaluations: a.stats.cases,
+        distinct_nontrivial: a.stats.nontrivial,
+        rule: rule.into(),
+        samples: a.samples.clone(),
+        exhaustive: !a.capped,
+        bounds: b,
+        wall_s: a.wall_s,
+    });
+}
+
 fn main() {
-    vcommon::machinery_failure("C10: engine not built yet");
+    std::panic::set_hook(Box::new(|_| {}));
+    let ctx = Ctx::from_env("C10");
+    let threads = vcommon::ncpu();
+    let p = match ctx.tier {
+        Tier::Quick => Params {
+            tier: "quick",
+            seq_narrow: 3,
+            seq_wide: 2,
+            extra_level: false,
+            two_cut_limit: 96,
+            three_cuts: false,
+            corrupt_seq: 2,
+            trunc_seq: 2,
+            recover_seq_narrow: 3,
+            recover_seq_wide: 2,
+            threads,
+            cap_s: 40.0,
+        },
+        Tier::Thorough => Params {
+            tier: "thorough",
+            seq_narrow: 3,
+            seq_wide: 2,
+            extra_level: true,
+            two_cut_limit: 192,
+            three_cuts: true,
+            corrupt_seq: 2,
+            trunc_seq: 3,
+            recover_seq_narrow: 3,
+            recover_seq_wide: 3,
+            threads,
+            cap_s: 600.0,
+        },
+    };
+
+    if let Some(r) = ctx.replay_request() {
+        let d = r["detail"].clone();
+        let sig = r["signature"].as_str().unwrap_or("").to_string();
+        let mut rp = Replayer { detail: &d, result: None };
+        for_each_entry(&mut rp);
+        match rp.result {
+            None => vcommon::machinery_failure("replay: unknown codec in the replay file"),
+            Some(None) => {}
+            Some(Some(expl)) => {
+                let mut dd = d.clone();
+                dd["replayed_explanation"] = json!(expl);
+                ctx.violation("replay", &sig, dd);
+            }
+        }
+        ctx.finish("model_checking", "replay");
+    }
+
+    watchdog(ctx.root.clone());
+    let only = std::env::var("C10_ONLY").ok();
+    let mut runner = Runner { p: &p, acc: Acc::new(), only, count: 0 };
+    for_each_entry(&mut runner);
+    let Runner { acc, count, .. } = runner;
+
+    let common = json!({"codec_pairs": count, "tier": p.tier});
+    let mut b = common.clone();
+    b["sequence_length_narrow_enums"] = json!(p.seq_narrow);
+    b["sequence_length_wide_enums"] = json!(p.seq_wide);
+    b["one_more_message_with_1cut_and_bytewise_only"] = json!(p.extra_level);
+    b["cuts"] = json!(format!(
+        "0, every 1-cut, every 2-cut for streams <= {} bytes{}, byte-by-byte",
+        p.two_cut_limit,
+        if p.three_cuts { format!(", every 3-cut for streams <= {} bytes", p.two_cut_limit / 2) } else { String::new() }
+    ));
+    b["streams_with_all_2cuts"] = json!(acc.frag.stats.two_cut_streams);
+    leg(
+        &ctx,
+        "fragmentation",
+        &acc.frag,
+        "case = (message sequence, chunking); non-trivial = the decoder returned None while part of a frame was pending (a resume path ran)",
+        b,
+    );
+    let mut b = common.clone();
+    b["sequence_length"] = json!(p.trunc_seq);
+    b["feeds"] = json!("whole prefix and byte-by-byte, then decode_eof");
+    leg(
+        &ctx,
+        "truncation",
+        &acc.trunc,
+        "case = (message sequence, prefix ending inside the last frame, feed); non-trivial = at least 2 bytes of the truncated frame present",
+        b,
+    );
+    let mut b = common.clone();
+    b["sequence_length"] = json!(p.corrupt_seq);
+    b["substitutions"] = json!("tag bytes: all 255 other values; each byte of each length field: {0, b-1, b+1, 0xFF}");
+    b["feeds"] = json!("whole stream and byte-by-byte, then decode_eof");
+    b["corrupted_field_without_effect_same_messages_delivered"] = json!(acc.corrupt.stats.ignored);
+    b["corrupted_stream_is_a_valid_other_stream"] = json!(acc.corrupt.stats.faithful);
+    leg(
+        &ctx,
+        "corruption",
+        &acc.corrupt,
+        "case = (message sequence, byte position, substituted value, feed); non-trivial = the decoder answered with an error",
+        b,
+    );
+    let mut b = common.clone();
+    b["sequence_length_narrow_enums"] = json!(p.recover_seq_narrow);
+    b["sequence_length_wide_enums"] = json!(p.recover_seq_wide);
+    b["cuts"] = json!(format!("0, every 1-cut, every 2-cut for streams <= {} bytes, byte-by-byte", p.two_cut_limit));
+    leg(
+        &ctx,
+        "recovery",
+        &acc.recover,
+        "case = (sequence with exactly one frame whose Recon body is invalid, chunking); non-trivial = a resume path ran",
+        b,
+    );
+
+    for (sig, (legname, detail)) in acc.violations {
+        ctx.violation(&legname, &sig, detail);
+    }
+    ctx.assume("payload pool: Recon {empty, 1 byte, 3 bytes with valid prefixes, quoted text with escapes}; raw {empty, a byte equal to a tag, 3 non-UTF-8 bytes, the quoted text}; uuids {0, MAX}; other payloads are not enumerated");
+    ctx.assume("typed decoders are instantiated at swimos_model::Value (key and value); other Recognizer types are not enumerated");
+    ctx.assume("corruption is a single substituted byte in a tag or length field; multi-byte corruption is not enumerated");
+    ctx.assume("a corrupted field that leaves the delivered messages unchanged is not counted as a violation (the property excludes silently WRONG messages)");
+    ctx.finish(
+        "model_checking",
+        "bounded-exhaustive enumeration of message sequences x chunkings x single-byte header corruptions, on the real tokio_util Encoder/Decoder implementations",
+    );
 }
